@@ -17,22 +17,43 @@ for mf in sorted(glob.glob(os.path.join(VERIF, "seeded", "*", "meta.json"))):
         if f:
             first = f[0].split(": ")[0].lstrip("# ")
             break
-    rows.append((m["id"], m["property"], summary.replace("|", "/"),
-                 ", ".join(m.get("caught_by", [])) or "**missed**", first.replace("|", "/")))
+    rc = m.get("recheck") or {}
+    if m.get("expected_uncaught"):
+        final = "not claimed (see note)"
+    elif rc:
+        final = "caught" if rc.get("exit") == 1 else "**MISSED**"
+        if rc.get("first"):
+            first = rc["first"][0].split(": ")[0].lstrip("# ")
+    else:
+        final = "caught" if m["property"] in m.get("caught_by", []) \
+            else "**MISSED**"
+    at_first = ", ".join(m.get("caught_by", [])) or "nothing"
+    rows.append((m["id"], m["property"] + (" (written for %s)" % m["written_for"]
+                                           if m.get("written_for") else ""),
+                 summary.replace("|", "/"), at_first, final,
+                 first.replace("|", "/")))
 out = ["## 7. Detection record", "",
        "Property-breaking changes kept under `/verif/seeded/<id>/` (`patch.diff`, `demo.py`,",
        "`meta.json`). Each was written by an independent sub-agent that saw only the",
        "property text and a scratch worktree (or is the reverse of one of the repairs of",
        "section 4), and was confirmed here: the patch applies to the current HEAD, the",
        "pinned test-suite still passes with it, `demo.py` passes on the clean tree and",
-       "fails on the changed tree (`tools/seed.py`). 'caught by' = quick-tier checks that",
-       "exit 1 with the change applied; 'first key' = the first violation key reported.", "",
-       "| seeded change | property | what it is | caught by | first key |", "|---|---|---|---|---|"]
+       "fails on the changed tree (`tools/seed.py`). 'when first seeded' = the quick-tier",
+       "checks that exited 1 with the change applied at that time ('nothing' = it was",
+       "missed and the check was strengthened afterwards); 'final' = the quick check of",
+       "the change's own property, re-run against the final machinery",
+       "(`tools/recheck_seeds.py`); 'key' = the first violation key reported.", "",
+       "| seeded change | property | what it is | when first seeded | final | key |",
+       "|---|---|---|---|---|---|"]
 for r in rows:
-    out.append("| %s | %s | %s | %s | `%s` |" % r)
+    out.append("| %s | %s | %s | %s | %s | `%s` |" % r)
 out.append("")
-out.append("%d changes, %d caught by the check of their own property, %d missed." % (
-    len(rows), sum(1 for r in rows if r[1] in r[3]), sum(1 for r in rows if "missed" in r[3])))
+n_first = sum(1 for r in rows if r[1].split(" ")[0] in r[3])
+out.append("%d changes; %d were caught by the check of their own property when first "
+           "seeded, %d are caught by it now, %d are missed, %d not claimed." % (
+               len(rows), n_first, sum(1 for r in rows if r[4] == "caught"),
+               sum(1 for r in rows if "MISSED" in r[4]),
+               sum(1 for r in rows if r[4].startswith("not claimed"))))
 out.append("")
 p = os.path.join(VERIF, "DESIGN.md")
 s = open(p).read()
